@@ -45,11 +45,11 @@ REQUIRED_PROBES = {"quick": ["llcp.frames", "pdu.decode.error", "tt3.commands", 
 def phases(tier):
     q = tier == "quick"
     return [
-        {"name": "llcp", "runs": 1500 if q else 200000, "params": {"h": "llcp"}},
+        {"name": "llcp", "runs": 1500 if q else 80000, "params": {"h": "llcp"}},
         {"name": "short", "runs": 330, "chunk": 8, "params": {"h": "short", "per_run": 200}},
         {"name": "tt3", "runs": 400 if q else 60000, "params": {"h": "tt3"}},
-        {"name": "dep", "runs": 500 if q else 80000, "params": {"h": "dep"}},
-        {"name": "app", "runs": 400 if q else 60000, "params": {"h": "app"}},
+        {"name": "dep", "runs": 500 if q else 30000, "params": {"h": "dep"}},
+        {"name": "app", "runs": 400 if q else 30000, "params": {"h": "app"}},
     ]
 
 
